@@ -540,6 +540,10 @@ func (w *Workspace) addMissingReachableLocked(reachable map[string]bool) bool {
 			}
 			text = string(content)
 		}
+		if w.loader != nil && int64(len(text)) > w.loader.Limits().MaxFileSizeBytes {
+			// the include loader refuses such a file: it is not part of the view
+			continue
+		}
 		fileIndex, journal, _ := BuildFileIndexFromContent(path, text)
 		w.index.SetFileIndex(path, fileIndex)
 		w.updateIncludeEdgesLocked(path, nil, fileIndex.Includes)
